@@ -327,6 +327,7 @@ pub fn strategy() -> BoxedStrategy<Case> {
                 ops,
                 tail_ms,
                 forced_wakes: true,
+                resolve_hosts: vec![],
             }
         })
         .boxed()
